@@ -1,7 +1,7 @@
 /-
   C10 lemmas, part 8: the reference semantics — a byte-at-a-time automaton.  `Sc` is its skeleton (what the
-  `Tidy` conditions talk about), `Abs` adds the unfolded line, the component state, the log and the
-  instructions.  Running it over a concatenation is running it over the pieces in turn (`List.foldl_append`),
+  `Tidy` conditions talk about), `Abs` adds the unfolded line (in full, however long: a line of `stashSize`
+  bytes or more is passed over when it ends, `flushA`), the component state, the log and the instructions.  Running it over a concatenation is running it over the pieces in turn (`List.foldl_append`),
   which is what makes the parse independent of the chunking once `feed` is shown to compute it.
 -/
 import Echse.Lemmas.Ical7
@@ -53,8 +53,12 @@ def procA (A : Abs) : Abs :=
                 else A.ins ++ [{ verb := verbOf x.1.meth x.1.cur, lines := x.1.cur }]
     { A with cur := [], comp := x.1, log := log, ins := ins' }
 
-/-- a pending line turns out complete (empty lines are passed over) -/
-def flushA (A : Abs) : Abs := if A.cur = [] then { A with sc := {} } else { (procA A) with sc := {} }
+/-- a pending line turns out complete: empty lines are passed over, and so is a line that does not fit the
+stash (`stashSize` bytes with the terminator: 1023 bytes of unfolded content fit, 1024 do not) -/
+def flushA (A : Abs) : Abs :=
+  if A.cur = [] then { A with sc := {} }
+  else if stashSize ≤ A.cur.length then { A with sc := {}, cur := [] }
+  else { (procA A) with sc := {} }
 
 def plainA (A : Abs) (c : Byte) : Abs :=
   { A with sc := plainSc A.sc c, cur := if c = CR ∨ c = NL then A.cur else A.cur ++ [c] }
@@ -77,7 +81,10 @@ theorem runSc_append (s : Sc) (x y : List Byte) : runSc s (x ++ y) = runSc (runS
   unfold runSc; rw [List.foldl_append]
 
 theorem flushA_sc (A : Abs) : (flushA A).sc = {} := by
-  unfold flushA; split <;> rfl
+  unfold flushA
+  split
+  · rfl
+  · split <;> rfl
 
 theorem procA_cur (A : Abs) : (procA A).cur = [] := by
   unfold procA; dsimp only; split <;> rfl
@@ -86,7 +93,9 @@ theorem flushA_cur (A : Abs) : (flushA A).cur = [] := by
   unfold flushA
   split
   · rename_i h; exact h
-  · exact procA_cur A
+  · split
+    · rfl
+    · exact procA_cur A
 
 /-- the skeleton runs on its own -/
 theorem stepA_sc (A : Abs) (c : Byte) : (stepA A c).sc = stepSc A.sc c := by
